@@ -264,4 +264,42 @@ def writes_in_blocks(prog, f, blocks, owner_prefix="marginfi_type_crate::types::
     for b, ck in f.closures_created():
         if b in blocks:
             out |= prog.writes(ck)
-    return {w for w in out if w[0].startswith(owner_prefix)}
+    return {w for w in out if w[0].startswith(owner_prefix) and not w[1].startswith("=")}
+
+
+def expect_atom(ctx, rule, construct, f, variant, rel, lp, rp, desc, on_all_paths=True, extra=None, use_conds=False):
+    """There is a guard error_if(rel, lhs, rhs) leading to MarginfiError::<variant> in f with lp(lhs) and rp(rhs);
+    optionally evaluated on every successful path of f."""
+    ev = A.error_variant_blocks(f, variant) if variant else []
+    atoms = A.guard_atoms(ctx.prog, f, ev, ctx.slicer) if ev else []
+    if use_conds and ev:
+        for e in ev:
+            atoms += A.edge_conditions_to(ctx.prog, f, e, ctx.slicer, limit=30)
+    g = [a for a in atoms if a.kind == "cmp" and a.rel == rel and lp(a.lhs) and rp(a.rhs) and (extra is None or extra(a))]
+    ok = bool(g)
+    why = ""
+    if ok and on_all_paths:
+        ok = A.must_pass(f, [a.switch[0] for a in g])[0]
+        if not ok:
+            why = "guard can be skipped on a successful path; "
+    return ctx.inst(rule, construct, ok, desc, why + ("; ".join(a.describe() for a in atoms if a.kind == "cmp")[:700] if not ok else "ok"),
+                    f.bloc(g[0].switch[0]) if g else (f.bloc(ev[0]) if ev else f.loc(f.raw["span"])))
+
+
+def F(owner, name):
+    return lambda p: p.has_field(owner, name)
+
+
+def Cn(name):
+    return lambda p: p.has_const(name)
+
+
+def only_field(owner, name, others):
+    """has field (owner,name) and none of the sibling fields"""
+    return lambda p: p.has_field(owner, name) and not any(p.has_field(owner, o) for o in others if o != name)
+
+
+def call_on_all_paths(ctx, rule, construct, f, spec, desc, consumed=True):
+    cs = A.direct_calls(f, spec)
+    ok = bool(cs) and A.must_pass(f, [c.block for c in cs])[0] and (not consumed or all(A.consumed(f, c.block)[0] for c in cs))
+    return ctx.inst(rule, construct, ok, desc, "%d call sites" % len(cs), cs[0].loc if cs else f.loc(f.raw["span"]))
